@@ -55,6 +55,7 @@ func build(c *vh.Check, p c17.Plan) []c17.Task {
 	if p.Gadgets {
 		if c17.WantSection(c, "kzg") {
 			tasks = append(tasks, kzgTasks(c, p)...)
+			tasks = append(tasks, kzgFSTasks(c, p)...)
 		}
 		if c17.WantSection(c, "pedersen") {
 			tasks = append(tasks, pedersenTasks(c, p)...)
